@@ -16,6 +16,7 @@ from __future__ import annotations
 
 import json
 import random
+import re
 import time
 from concurrent.futures import ThreadPoolExecutor
 
@@ -47,6 +48,8 @@ POOL_DEVS = {d for d, m, _ in DEVIATIONS if m == "Pool"}
 PRIMS_OF_KIND = {"fifo": ["Resource", "Semaphore", "PreemptibleResource", "Mutex"], "rwlock": ["RWLock"],
                  "bulkhead": ["Bulkhead"], "try": ["WeightedConcurrency", "FixedConcurrency", "DynamicConcurrency"]}
 TICKS = (10**6, 10**3, 10**9)
+# several TLC processes run side by side: keep each JVM's helper threads few
+JVM_ENV = {"JAVA_TOOL_OPTIONS": "-XX:ParallelGCThreads=2 -XX:CICompilerCount=2"}
 
 
 def as_code_dev():
@@ -58,8 +61,8 @@ def devset(dev):
     return "{" + ",".join(f'"{d}"' for d in dev) + "}"
 
 
-def cap_consts(cfgs, *, nw=3, maxarr=1, maxhold=2, dev=()):
-    return {"NW": nw, "Cfgs": f"<- {cfgs}", "MaxArr": maxarr, "MaxHold": maxhold, "Dev": devset(dev)}
+def cap_consts(cfgs, *, nw=3, maxarr=1, dev=()):
+    return {"NW": nw, "Cfgs": f"<- {cfgs}", "MaxArr": maxarr, "Dev": devset(dev)}
 
 
 def pool_consts(maxes, *, nw=3, lat=2, npolls=3, maxarr=2, maxhold=2, dev=()):
@@ -82,8 +85,8 @@ def mc_jobs(tier):
     big = max(2, tlc.DEFAULT_WORKERS // 2)
     mid = max(1, tlc.DEFAULT_WORKERS // 4)
     jobs = [
-        ("cap_quick", "CapacityMC", cap_consts("MCQuick"), CAP_INVS, not q, True, big),
-        ("pool_12", "Pool", pool_consts((1, 2)), POOL_INVS, True, False, mid),
+        ("cap_main", "CapacityMC", cap_consts("MCQuick" if q else "MCFull"), CAP_INVS, not q, True, big),
+        ("pool_12", "Pool", pool_consts((1, 2)), POOL_INVS, not q, False, mid),
         ("barrier", "Barrier", barrier_consts(), BARRIER_INVS, True, False, 1),
     ]
     if q:
@@ -91,12 +94,12 @@ def mc_jobs(tier):
     else:
         jobs += [
             ("cap_more", "CapacityMC", cap_consts("MCMore"), CAP_INVS, True, True, big),
-            ("cap_wide", "CapacityMC", cap_consts("MCWide", maxarr=2, maxhold=3), CAP_INVS, False, False, big),
-            ("cap_four", "CapacityMC", cap_consts("MCFour", nw=4, maxarr=1, maxhold=1), CAP_INVS, False, False, big),
+            ("cap_wide", "CapacityMC", cap_consts("MCWide", maxarr=2), CAP_INVS, False, False, big),
+            ("cap_four", "CapacityMC", cap_consts("MCFour", nw=4, maxarr=1), CAP_INVS, False, False, big),
             ("pool_slow", "Pool", pool_consts((1, 2), lat=3, npolls=4, maxarr=3, maxhold=3), POOL_INVS, False, False,
              mid),
             ("pool_nw4", "Pool", pool_consts((1, 2, 3), nw=4, maxarr=2, maxhold=1), POOL_INVS, False, False, mid),
-            ("barrier_nw6", "Barrier", barrier_consts(nw=6, parties=(2, 3, 4), maxarr=2), BARRIER_INVS, True, False,
+            ("barrier_nw5", "Barrier", barrier_consts(nw=5, parties=(2, 3, 4), maxarr=2), BARRIER_INVS, True, False,
              mid),
         ]
     return jobs
@@ -109,7 +112,7 @@ def run_tlc_job(job):
                         properties=["EventuallyServed"] if live else [])
     extra = ["-dump", str(wd / "states")] if dump else None
     res = tlc.run(SPEC / f"{module}.tla", cfg, label=label, workers=workers, timeout=2400, extra=extra,
-                  heap="3g" if workers > 1 else "1g")
+                  heap="3g" if workers > 1 else "1g", env=JVM_ENV)
     return res, wd
 
 
@@ -126,7 +129,7 @@ def start_model_checking(tier):
         elif module == "Barrier":
             consts, invs, mod = barrier_consts(nw=3, parties=(2,), maxarr=1, dev=[dev]), BARRIER_INVS, "Barrier"
         else:
-            consts, invs, mod = cap_consts("MCSens", maxarr=0, maxhold=1, dev=[dev]), CAP_INVS, "CapacityMC"
+            consts, invs, mod = cap_consts("MCSens", maxarr=0, dev=[dev]), CAP_INVS, "CapacityMC"
         name = f"dev_{module}_{dev}"
         job = (name, mod, consts, invs, False, False, 1, f"C09_{name}")
         futs[name] = (job, ex.submit(run_tlc_job, job))
@@ -210,7 +213,10 @@ def random_cap_scenario(rng, prim, spin_prone):
             else:
                 holds = [rng.choice((0, 0, 1, 1, 2, 3, 5)) for _ in range(rng.randint(1, 2))]
                 pre = rng.choice((0, 0, 1, 2))
-            rounds.append({"pre": pre, "a": a, "m": m, "holds": holds})
+            rnd = {"pre": pre, "a": a, "m": m, "holds": holds}
+            if prim in ("Resource", "PreemptibleResource") and rng.random() < 0.15:
+                rnd["dbl"] = True       # release the grant twice (must be a no-op)
+            rounds.append(rnd)
         ws.append({"arr": arr, "rounds": rounds})
     s["workers"] = ws
     order = list(range(nw))
@@ -252,18 +258,20 @@ def pool_scenarios_from_model(env):
 # ---------------------------------------------------------------------------
 # trace validation helpers
 
+_VLINE = re.compile(r'<<\s*"V",\s*(\d+),\s*"([^"]*)",\s*(-?\d+)(?:,\s*"([^"]*)")?\s*>>')
+
+
 def _validate_chunk(module, part, label):
     wd = tlc.WORK / label
     wd.mkdir(parents=True, exist_ok=True)
     cfg = tlc.write_cfg(wd / "trace.cfg", spec="Spec")
     f = wd / "traces.json"
     f.write_text(json.dumps(part, separators=(",", ":")))
-    res = tlc.run(SPEC / module, cfg, label=label, workers=1, timeout=3000, env={"TRACE_FILE": str(f)},
-                  heap="3g")
+    res = tlc.run(SPEC / module, cfg, label=label, workers=1, timeout=3000,
+                  env={"TRACE_FILE": str(f), **JVM_ENV}, heap="2g")
     verdicts = {}
-    for v in res.printed:
-        if isinstance(v, tuple) and len(v) >= 4 and v[0] == "V":
-            verdicts[v[1]] = (v[2], v[3], v[4] if len(v) > 4 else "")
+    for m in _VLINE.finditer(res.stdout):       # TLC wraps long tuples over several lines
+        verdicts[int(m.group(1))] = (m.group(2), int(m.group(3)), m.group(4) or "")
     miss = [t["id"] for t in part if t["id"] not in verdicts]
     if miss:
         raise tlc.TLCFailure(f"{label}: no verdict for traces {miss[:3]} (see {wd / 'tlc.out'})")
@@ -356,7 +364,7 @@ def run(tier, seed, replay=None):
             chk.note_drift(f"run aborted by the delivery cap: {prim}")
         return w
 
-    def flush(chunk=1200):
+    def flush(chunk=800):
         """hand the traces recorded so far to TLC (separate processes, in the background)"""
         for batch, ts in traces.items():
             new = ts[sent[batch]:]
@@ -367,7 +375,7 @@ def run(tier, seed, replay=None):
             sent[batch] = len(ts)
 
     # code -> spec, part 1 (while TLC is busy): random / adversarial populations beyond the model's bounds
-    n_rand = 100 if quick else 2500
+    n_rand = 70 if quick else 600
     prims = [p for ps in PRIMS_OF_KIND.values() for p in ps]
     for k in range(n_rand):
         for prim in prims:
@@ -400,7 +408,7 @@ def run(tier, seed, replay=None):
     phase["tlc_done"] = round(time.time() - t0, 1)
     matched = mismatched = skipped = 0
     total_scen = 0
-    cap_per = 150 if quick else 10**9
+    cap_per = 100 if quick else 1200
     for ck, out in sorted(outcomes.items()):
         kind, cap, qmax, nw = ck
         keys = sorted(out)
@@ -438,7 +446,7 @@ def run(tier, seed, replay=None):
     chk.extra["replay_outcome_matched"] = matched
     chk.extra["replay_outcome_mismatched"] = mismatched
     chk.extra["replay_skipped_aborted"] = skipped
-    chk.exhaustive = not quick
+    chk.exhaustive = False      # exhaustive inside TLC; the envelope replay is a seeded sample per class
     phase["model_scenarios_run"] = round(time.time() - t0, 1)
     flush()
 
